@@ -83,27 +83,33 @@ template <bool NoneIsLeaf>
     registration->flatten_func = py::reinterpret_borrow<py::function>(flatten_func);
     registration->unflatten_func = py::reinterpret_borrow<py::function>(unflatten_func);
     registration->path_entry_type = py::reinterpret_borrow<py::object>(path_entry_type);
+    const auto warn = [&registry, &cls, &registry_namespace](const std::string& message) -> void {
+        if (PyErr_WarnEx(PyExc_UserWarning, message.c_str(), /*stack_level=*/2) < 0) [[unlikely]] {
+            // The warning was turned into an exception (e.g., `-W error`).
+            // Undo the registration before propagating it.
+            if (registry_namespace.empty()) [[unlikely]] {
+                registry->m_registrations.erase(cls);
+            } else [[likely]] {
+                registry->m_named_registrations.erase(std::make_pair(registry_namespace, cls));
+            }
+            throw py::error_already_set();
+        }
+    };
     if (registry_namespace.empty()) [[unlikely]] {
         if (!registry->m_registrations.emplace(cls, std::move(registration)).second) [[unlikely]] {
             throw py::value_error("PyTree type " + PyRepr(cls) +
                                   " is already registered in the global namespace.");
         }
         if (IsStructSequenceClass(cls)) [[unlikely]] {
-            PyErr_WarnEx(PyExc_UserWarning,
-                         ("PyTree type " + PyRepr(cls) +
-                          " is a class of `PyStructSequence`, "
-                          "which is already registered in the global namespace. "
-                          "Override it with custom flatten/unflatten functions.")
-                             .c_str(),
-                         /*stack_level=*/2);
+            warn("PyTree type " + PyRepr(cls) +
+                 " is a class of `PyStructSequence`, "
+                 "which is already registered in the global namespace. "
+                 "Override it with custom flatten/unflatten functions.");
         } else if (IsNamedTupleClass(cls)) [[unlikely]] {
-            PyErr_WarnEx(PyExc_UserWarning,
-                         ("PyTree type " + PyRepr(cls) +
-                          " is a subclass of `collections.namedtuple`, "
-                          "which is already registered in the global namespace. "
-                          "Override it with custom flatten/unflatten functions.")
-                             .c_str(),
-                         /*stack_level=*/2);
+            warn("PyTree type " + PyRepr(cls) +
+                 " is a subclass of `collections.namedtuple`, "
+                 "which is already registered in the global namespace. "
+                 "Override it with custom flatten/unflatten functions.");
         }
     } else [[likely]] {
         if (!registry->m_named_registrations
@@ -121,9 +127,7 @@ template <bool NoneIsLeaf>
                    "which is already registered in the global namespace. "
                    "Override it with custom flatten/unflatten functions in namespace "
                 << PyRepr(registry_namespace) << ".";
-            PyErr_WarnEx(PyExc_UserWarning,
-                         oss.str().c_str(),
-                         /*stack_level=*/2);
+            warn(oss.str());
         } else if (IsNamedTupleClass(cls)) [[unlikely]] {
             std::ostringstream oss{};
             oss << "PyTree type " << PyRepr(cls)
@@ -131,9 +135,7 @@ template <bool NoneIsLeaf>
                    "which is already registered in the global namespace. "
                    "Override it with custom flatten/unflatten functions in namespace "
                 << PyRepr(registry_namespace) << ".";
-            PyErr_WarnEx(PyExc_UserWarning,
-                         oss.str().c_str(),
-                         /*stack_level=*/2);
+            warn(oss.str());
         }
     }
 }
@@ -150,11 +152,17 @@ template <bool NoneIsLeaf>
                                unflatten_func,
                                path_entry_type,
                                registry_namespace);
-    RegisterImpl<NONE_IS_LEAF>(cls,
-                               flatten_func,
-                               unflatten_func,
-                               path_entry_type,
-                               registry_namespace);
+    try {
+        RegisterImpl<NONE_IS_LEAF>(cls,
+                                   flatten_func,
+                                   unflatten_func,
+                                   path_entry_type,
+                                   registry_namespace);
+    } catch (...) {
+        // Keep the two registries consistent: undo the first registration.
+        UnregisterImpl<NONE_IS_NODE>(cls, registry_namespace);
+        throw;
+    }
     cls.inc_ref();
     flatten_func.inc_ref();
     unflatten_func.inc_ref();
